@@ -76,6 +76,62 @@ func init() {
 				c03Big(c, n, kind)
 			}
 		}
+		// several layers of very different sizes in one tile (thousands of features in all): they come back in the order
+		// they were given, each with its features, and repeated marshals give the same bytes
+		for _, n := range sizes[1:] {
+			mk := func(name string, k int, props int) *mvt.Layer {
+				fc := geojson.NewFeatureCollection()
+				for i := 0; i < k; i++ {
+					f := geojson.NewFeature(orb.LineString{{float64(i % 97), float64(i % 89)}, {float64(i%97 + 3), float64(i%89 + 1)}, {float64(i % 13), 7}})
+					for p := 0; p < props; p++ {
+						f.Properties[string(rune('a'+p))+name] = float64(i%7 + p)
+					}
+					fc.Append(f)
+				}
+				return mvt.NewLayer(name, fc)
+			}
+			layers := mvt.Layers{mk("a-big", n, 6), mk("c-small", 3, 1), mk("b-mid", n/4, 2), mk("d-none", 0, 0), mk("e-one", 1, 0)}
+			total := n + 3 + n/4 + 1
+			e := map[string]interface{}{"k": "mvtbig", "n": total, "kind": 10, "nt": 1, "plain": 0, "gz": 0, "np": -1, "ng": -1, "ratio": 0}
+			setCurrent("mvt.Marshal(layers of many sizes)", e)
+			site := guard(func() {
+				same := func(dec mvt.Layers, err error) (int, int) {
+					if err != nil || len(dec) != len(layers) {
+						return 0, -1
+					}
+					cnt := 0
+					for i, l := range dec {
+						if l.Name != layers[i].Name || len(l.Features) != len(layers[i].Features) {
+							return 0, -1
+						}
+						for j, f := range l.Features {
+							if !orb.Equal(f.Geometry, layers[i].Features[j].Geometry) || len(f.Properties) != len(layers[i].Features[j].Properties) {
+								return 0, -1
+							}
+						}
+						cnt += len(l.Features)
+					}
+					return 1, cnt
+				}
+				d1, err := mvt.Marshal(layers)
+				if err != nil {
+					return
+				}
+				d2, _ := mvt.Marshal(layers)
+				d3, _ := mvt.Marshal(layers)
+				gz, _ := mvt.MarshalGzipped(layers)
+				e["plain"], e["np"] = same(mvt.Unmarshal(d1))
+				e["gz"], e["ng"] = same(mvt.UnmarshalGzipped(gz))
+				if string(d1) != string(d2) || string(d1) != string(d3) {
+					e["plain"] = 0
+				}
+			})
+			if site != "" {
+				c.emit(panicEvent("mvt.Marshal(layers of many sizes)", site, e))
+			} else {
+				c.emit(e)
+			}
+		}
 		// the same layers marshalled (plain and gzipped) now and more than a second later: the same bytes
 		{
 			fc := geojson.NewFeatureCollection()
